@@ -8,7 +8,10 @@ Domain : and/or formulas (2-5 leaves, depth <= 3, every shape incl. those whose 
          of ~half of the sequences; it is not an event, so the oracle does not see it. A third of the cases over flows let
          several member flows finish on the SAME event (evmap), the interpreter's random tie-breaks belong to the case
          (`choices`, smh.Chooser), and a quarter of the cases put a second group statement directly in front of the one
-         under test (`gate`, no action statement between the two; same pool of members).
+         under test (`gate`, no action statement between the two; same pool of members). In a quarter of the cases the SAME leaf
+         stands at several places of the formula (repeated leaves: and-groups of the DNF repeat a leaf / coincide / one
+         alternative is a proper subset of another, `A or (A and B)`), and in a third of the `when` cases some leaves are plain
+         events instead of flows (`when fa and E()`, `when (fa or fb) and E()`, `when (fa and E()) or fb`).
 Oracle : evaluate the formula over the set of events seen so far: the marker appears at exactly the first index
          at which the formula is true, never earlier, never twice; never if it is never true.
 """
@@ -23,7 +26,7 @@ PID = "C07"
 LEVEL = "exploration"
 CASE_TIMEOUT = 30
 RULE = (
-    "formula F over leaves Ev0..Ev4 drawn recursively (and/or nodes with 2-3 children, depth<=3, 2-5 leaves, distinct leaves) "
+    "formula F over leaves Ev0..Ev4 drawn recursively (and/or nodes with 2-3 children, depth<=3, 2-5 leaf places; distinct leaves in three quarters of the cases, REPEATED LEAVES in one quarter - see below) "
     "rendered fully parenthesised as `match F` (leaves = distinct event names, or one event name with distinct parameter values, or `$r_i.Finished()` of flows started earlier) / `await F` / `when F [or when G]` (await/when leaves are flows f_i := match Ev_i(), or actions X_iAction() finished by their ActionFinished event, or a mix); optionally the statement sits behind `match Go()` and 0-4 events arrive before it becomes active (they must not count; a flow finished early can never satisfy its leaf); event sequence of <=10 events drawn from the "
     "leaf events (with repetition) and 2 irrelevant events; in a third of the cases the statement sits in `while True` and the sequence goes on over several activations (only events since the current activation count); in a third of the await/when cases over flows the member flows can fail (event Fail_i aborts f_i: it never delivers Finished; when no running member can complete the group the case stops); in a quarter of the single-case await/when cases over flows 1-2 member flows finish without any event (their Finished events count from activation on); in about half of the cases (every form, also the looping / failing / instant / gated ones) IDLE TIME passes between the events: items [position, seconds] with seconds in {3, 6, 60} (the harness owns the clock, smh.Clock; 5 s is the age after which the interpreter drops the state of finished flows) before 1-4 events of the sequence or before every event, and before pre-activation events / the activating Go - idle time is not an event, the marker is still due at exactly the first event that satisfies the formula (labels idle-time / no-idle-time, member-flow-done>5s-before-completion[+dnf>=2-and-groups] = a member flow finished more than 5 s before the completing event [and the formula normalises to >= 2 and-groups]); plus enumeration of ALL permutations of the leaf events for every "
     "formula shape with <=4 leaves (x 3 forms), and the same permutations once more with 6 s of idle time in every gap between the events (<=3 leaves: all five forms; 4 leaves: await/when, idle time before the last two events). "
@@ -31,11 +34,15 @@ RULE = (
     "TIE-BREAKS: the interpreter's random choices (which of several heads arriving at one merge wins, which of several equally good candidates is picked) are owned by the case: `choices` (1-3 integers 0-3, consumed cyclically by smh.Chooser; always present with shared events, in a quarter of the other cases; absent = first candidate) - the formula is satisfied whoever wins, so the oracle does not look at them (labels tie-break-asked, tie-break-asked+choice-not-first-candidate). "
     "TWO GROUP STATEMENTS IN SEQUENCE: in a quarter of the match / matchp / await / when cases a second group statement `gate` (formula with 2-3 leaves mapped by a drawn permutation into the same pool of leaves; match / matchp in front of match / matchp, await F0 or `when F0` + assignment in front of await / when) stands directly in front of the statement under test with NO action statement between the two (also inside `while True`, behind Go, with failing members, shared events, idle time): the first statement completes by the same formula rule and the statement under test is active from exactly that event on - it starts its OWN instances of the member flows, including flows that just lost (were stopped by) or finished in the first statement (labels two-group-statements-in-sequence, first-statement-<form>-completed / -never-completed, second-statement-re-awaits-member-that-lost-the-first / -that-finished-in-the-first, second-statement-re-matches-event-of-the-first). "
     "Enumerated on top: (shared events) every formula shape with <=3 leaves (thorough: 4) x every assignment of events to the member flows with at least one shared event x every order of the distinct events x await / when / matchref x tie-break patterns [0],[1],[2],[0,1],[1,0], plus `when F or when f2` with f2 sharing its event; (sequence) first statement `a or b` (both start orders) / `a and b` over a pool of three leaves x every formula shape with <=3 leaves behind it x every order of the three events fed twice x await-await / when-await / await-when / when-when (or-gates also match-match / matchp-matchp). "
+    "REPEATED LEAVES: in a quarter of the cases (every form: match / matchp / matchref / await / when, also looping / gated / failing / shared-event / idle-time ones; not with instant members or action leaves) the leaf places of F are mapped onto a smaller pool (place i keeps its leaf or takes the leaf of an earlier place, at least one collision), so the same event / the same flow is written several times: `A or (A and B)`, `(A and B) or A`, `(A or B) and A`, `A and A`, `fa or (fa and fb)` (await / when start one instance of the flow per place; all instances finish on the same event). The oracle is unchanged - the boolean formula over the SET of leaves received - so `A or (A and B)` is due as soon as A alone arrived (labels repeated-leaf, repeated-leaf-within-one-and-group, dnf-alternative-proper-subset-of-another, dnf-alternatives-coincide, completed-by-alternative-that-is-proper-subset-of-an-incomplete-one). "
+    "EVENT LEAVES IN `when`: in a third of the `when` cases over flows a drawn non-empty subset `evleaf` of the leaves (of F, G and a `when` gate in front) is written as the plain event Ev_i() instead of the flow f_i := match Ev_i() - and-groups mixing flows with events in either order, or-alternatives of different kinds, event-only groups; event Ev_i delivers leaf i either way, so the oracle is unchanged; an event leaf cannot fail (Fail_i is then an irrelevant event); a gate over such leaves is always a `when` (labels when-event-leaves, when-and-group-mixes-flows-and-events, when-event-only-group-next-to-flow-only-group, when-events-only, completed-by-and-group-mixing-flows-and-events). "
+    "Enumerated FIRST: (repeated leaves) every formula shape with 2-3 leaf places x every mapping of the places onto fewer leaves (one per set partition with a shared block) x every order of the distinct leaf events x all five forms, 4 places: match / await / when (quick: in rotation); (event leaves) `when` x every shape with 2-3 leaves x every non-empty subset of the leaves as events x every order, the 3-place formulas with a repeated leaf x every subset, and `when F or when <leaf 2>` with 2-leaf F x every subset of the three leaves. "
     "Non-trivial = the formula (of either statement of a sequence) uses both operators or has depth>=2; distinct by "
-    "(form, formula, sequence, evmap, choices, gate)."
+    "(form, formula, sequence, evmap, choices, gate, evleaf)."
 )
 ASSUMPTIONS = [
-    "leaves of one formula are distinct events/flows (as the quantifier says)",
+    "leaves of one formula are distinct events/flows (as the quantifier says) in three quarters of the cases; a formula that writes the same leaf at several places is still 'the boolean formula it spells' (the statement: 'arbitrarily nested'), evaluated over the set of events received - nothing but idempotence / absorption of and/or is assumed. For await / when every place starts its own instance of the flow; all instances wait for the same event, so the leaf is delivered for every place at once. Repeated leaves are not combined with instant members (open finding C07-F20 is modelled over distinct members) or action leaves (two starts of one action in a group compete as actions)",
+    "event leaves in `when`: `when` / `or when` take a <MixedGroup> of flows, actions and events (docs/colang_2/language_reference/flow-control.rst: 'for events this works like a match statement, whereas for actions and flows it behaves like an await statement'); a plain event leaf Ev_i() counts from the moment the `when` statement became active, like the Finished event of a member flow; `await` takes no plain events, so the form is used for `when` (and `when` gates) only",
     "for `when F or when G` satisfied by the same event either case's marker is accepted",
     "each flow f_i finishes on the first Ev_i after the statement became active",
     "shared events: a member flow f_i := match Ev_k() finishes on the first Ev_k after the statement that started it became active, whatever other flows wait for the same event; members finishing in one processing cycle all belong to 'the events received' at that moment, so the statement completes at that event whichever member the interpreter's random tie-break prefers",
@@ -147,6 +154,23 @@ def formula(draw, max_leaves=5):
     return build(list(perm), 3)
 
 
+@st.composite
+def _repeated(draw, f):
+    """f with its leaves mapped onto a smaller pool (at least two places of the formula carry the same leaf)."""
+    p = len(leaves(f))
+    m = list(range(p))
+    twin = draw(st.integers(1, p - 1))
+    for i in range(1, p):
+        if i == twin or draw(st.integers(0, 2)) == 0:
+            m[i] = m[draw(st.integers(0, i - 1))]
+    ids = sorted(set(m))
+    return relabel(f, [ids.index(x) for x in m])
+
+
+def has_repeats(f):
+    return len(set(leaves(f))) < len(leaves(f))
+
+
 def relabel(f, m):
     if isinstance(f, int):
         return m[f]
@@ -161,7 +185,11 @@ def _all_leaves(case):
 def _case(draw):
     form = draw(st.sampled_from(["match", "matchp", "matchref", "await", "when", "when"]))
     f = draw(formula())
-    n = len(leaves(f))
+    # REPEATED LEAVES: the same event / flow is written at several places of the formula (leaf ids mapped onto a smaller pool),
+    # so and-groups of the DNF repeat a leaf, coincide, or one alternative is a proper subset of another (`A or (A and B)`)
+    if draw(st.integers(0, 3)) == 0:
+        f = draw(_repeated(f))
+    n = max(leaves(f)) + 1  # number of distinct leaves (= number of leaves unless leaves are repeated)
     g = None
     if form == "when" and draw(st.booleans()):
         g = draw(formula(3))
@@ -185,16 +213,22 @@ def _case(draw):
     leaf = "flow"
     # `await A or B` over ACTIONS starts only one of them (the two starts compete as actions; documented for or-groups of
     # actions), so action leaves are only used in and-only formulas, where all of them are started
-    if form in ("await", "when") and g is None and gate is None and ops(f) == {"and"}:
+    if form in ("await", "when") and g is None and gate is None and ops(f) == {"and"} and not has_repeats(f):
         leaf = draw(st.sampled_from(["flow", "action", "mixed"]))
     # events that arrive BEFORE the group statement becomes active (it sits behind `match Go()`): they must not count
     pre = draw(st.lists(st.sampled_from(alphabet), max_size=4)) if draw(st.booleans()) else None
     case = {"form": form, "f": f, "g": g, "seq": seq[:20 if gate else 14], "leaf": leaf, "pre": pre}
     if gate:
         case["gate"] = gate
+    # EVENT LEAVES IN `when`: some leaves of the `when` group(s) are plain events `Ev_i()` instead of flows f_i := match Ev_i()
+    # (and-groups mixing flows with events, event-only groups next to flow groups); event Ev_i delivers leaf i either way
+    if form == "when" and leaf == "flow" and draw(st.integers(0, 2)) == 0:
+        case["evleaf"] = sorted(draw(st.lists(st.sampled_from(list(range(nfl))), min_size=1, max_size=nfl, unique=True)))
+        if gate and gate["form"] == "await" and set(case["evleaf"]) & set(leaves(gate["f"])):
+            gate["form"] = "when"  # `await` takes flows / actions only
     # SHARED EVENTS: member flows f_i := match Ev_{evmap[i]}() - several members of one group finish on the SAME event (in one
     # processing cycle); the items of the sequence are event numbers, event e finishes every running member i with evmap[i] == e
-    if form in ("await", "when", "matchref") and leaf == "flow" and draw(st.integers(0, 2)) == 0:
+    if form in ("await", "when", "matchref") and leaf == "flow" and nfl >= 2 and draw(st.integers(0, 2)) == 0:
         evmap = list(range(nfl))
         twin = draw(st.integers(1, nfl - 1))
         for i in range(1, nfl):
@@ -218,7 +252,7 @@ def _case(draw):
             case["seq"].insert(draw(st.integers(0, min(len(case["seq"]), 4))), 100 + x)
     # some member flows need no event at all (they finish in the step that starts them): their Finished events belong to
     # the events received since the statement became active
-    if form in ("await", "when") and leaf == "flow" and g is None and gate is None and "evmap" not in case and not case.get("loop") and not case.get("fail") and draw(st.integers(0, 3)) == 0:
+    if form in ("await", "when") and leaf == "flow" and g is None and gate is None and "evmap" not in case and "evleaf" not in case and not has_repeats(f) and not case.get("loop") and not case.get("fail") and draw(st.integers(0, 3)) == 0:
         case["instant"] = sorted(draw(st.lists(st.sampled_from(list(range(n))), min_size=1, max_size=2, unique=True)))
     # idle time between the events (the harness owns the clock): [position, seconds] = that much time passes right before
     # seq[position] (before pre[position] / before Go for position == len(pre)). Idle time is not an event: the oracle ignores it.
@@ -243,6 +277,8 @@ def strategy(tier):
 
 
 def enumerate_cases(tier):
+    yield from _enumerate_repeated(tier)
+    yield from _enumerate_when_events(tier)
     for n in (2, 3, 4):
         for shape in shapes(n, 3):
             f = label(shape)
@@ -276,6 +312,58 @@ def enumerate_cases(tier):
 
     yield from _enumerate_shared(tier)
     yield from _enumerate_sequence(tier)
+
+
+def _enumerate_repeated(tier):
+    """REPEATED LEAVES: every formula shape with 2-3 leaf places (4 places: forms in rotation in the quick tier) x every mapping
+    of the places onto fewer distinct leaves (one per set partition with a shared block) x every order of the distinct leaf
+    events x match / matchp / matchref / await / when."""
+    forms = ("match", "matchp", "matchref", "await", "when")
+    k = 0
+    for n in (2, 3, 4):
+        for shape in shapes(n, 3):
+            f0 = label(shape)
+            for m in _evmaps(n):
+                ids = sorted(set(m))
+                f = relabel(f0, [ids.index(x) for x in m])
+                for p in itertools.permutations(range(len(ids))):
+                    if n <= 3:
+                        use = forms
+                    elif tier == "quick":
+                        k += 1
+                        use = (("match", "await", "when")[k % 3],)
+                    else:
+                        use = ("match", "await", "when")
+                    for form in use:
+                        yield {"form": form, "f": f, "g": None, "seq": list(p), "pre": None}
+
+
+def _subsets(n):
+    for r in range(1, n + 1):
+        yield from itertools.combinations(range(n), r)
+
+
+def _enumerate_when_events(tier):
+    """EVENT LEAVES IN `when`: every formula shape with 2-3 leaves x every non-empty subset of the leaves written as plain
+    events (the others are flows) x every order of the leaf events; plus the formulas with 3 leaf places and a repeated leaf;
+    plus `when F or when <leaf 2>` with the second case a plain event or a flow next to event leaves in F."""
+    for n in (2, 3):
+        for shape in shapes(n, 3):
+            f = label(shape)
+            for sub in _subsets(n):
+                for p in itertools.permutations(range(n)):
+                    yield {"form": "when", "f": f, "g": None, "seq": list(p), "pre": None, "evleaf": list(sub)}
+            if n == 2:
+                for sub in _subsets(3):
+                    for p in itertools.permutations(range(3)):
+                        yield {"form": "when", "f": f, "g": 2, "seq": list(p), "pre": None, "evleaf": list(sub)}
+            if n == 3:
+                for m in _evmaps(3):
+                    ids = sorted(set(m))
+                    fr = relabel(f, [ids.index(x) for x in m])
+                    for sub in _subsets(len(ids)):
+                        for p in itertools.permutations(range(len(ids))):
+                            yield {"form": "when", "f": fr, "g": None, "seq": list(p), "pre": None, "evleaf": list(sub)}
 
 
 TIE_BREAKS = [[0], [1], [2], [0, 1], [1, 0]]
@@ -340,7 +428,8 @@ def program(case):
     f, g, form = case["f"], case["g"], case["form"]
     gate, evmap = case.get("gate"), case.get("evmap")
     ev = lambda i: f"Ev{i}()"  # noqa: E731
-    fl = lambda i: f"X{i}Action()" if _is_action_leaf(case, i) else f"f{i}"  # noqa: E731
+    evleaf = set(case.get("evleaf") or [])  # leaves of a `when` group that are plain events instead of flows
+    fl = lambda i: f"X{i}Action()" if _is_action_leaf(case, i) else f"Ev{evmap[i] if evmap else i}()" if i in evleaf else f"f{i}"  # noqa: E731
     lines = []
     evp = lambda i: f"Ev(v={i})"  # noqa: E731
     rf = lambda i: f"$r{i}.Finished()"  # noqa: E731
@@ -505,12 +594,43 @@ def known(case, violation):
     return None
 
 
+def _shape_labels(case):
+    """Share of the formula-shape dimensions: repeated leaves (what they do to the DNF) and event leaves in `when`."""
+    out = []
+    fs = [case["f"]] + ([case["g"]] if case.get("g") else [])
+    if any(has_repeats(x) for x in fs):
+        out.append("repeated-leaf")
+        for x in fs:
+            groups = dnf(x)
+            sets = [frozenset(grp) for grp in groups]
+            if any(len(set(grp)) < len(grp) for grp in groups):
+                out.append("repeated-leaf-within-one-and-group")
+            if any(a < b for a in sets for b in sets):
+                out.append("dnf-alternative-proper-subset-of-another")
+            if len(set(sets)) < len(sets):
+                out.append("dnf-alternatives-coincide")
+        out = sorted(set(out))
+    evleaf = set(case.get("evleaf") or [])
+    if evleaf:
+        out.append("when-event-leaves")
+        groups = [set(grp) for x in fs for grp in dnf(x)]
+        if any(grp & evleaf and grp - evleaf for grp in groups):
+            out.append("when-and-group-mixes-flows-and-events")
+        if any(grp <= evleaf for grp in groups) and any(not (grp & evleaf) for grp in groups):
+            out.append("when-event-only-group-next-to-flow-only-group")
+        if all(grp <= evleaf for grp in groups):
+            out.append("when-events-only")
+    return out
+
+
 def _stmt_desc(case):
     f, g, form, gate = case["f"], case["g"], case["form"], case.get("gate")
     s = ""
     if gate:
         s += f"[{gate['form']} {render(gate['f'], str)}] directly followed by "
     s += f"{form} F={render(f, str)}" + (f" G={render(g, str)}" if g else "")
+    if case.get("evleaf"):
+        s += f" (leaves {case['evleaf']} of the when group are plain events Ev_i(), the others flows f_i)"
     if case.get("evmap"):
         s += f" (member flow f_i finishes on event evmap[i], evmap={case['evmap']}; seq = event numbers)"
     if case.get("choices"):
@@ -557,6 +677,7 @@ def prop(case):
 
     failed_out = False
     dead = set()  # matchref: flows that finished before the statement became active can never satisfy their leaf
+    evleaf = set(case.get("evleaf") or [])  # `when` leaves that are plain events (they cannot fail)
     if case.get("pre") is not None:
         for k, e in enumerate(case["pre"]):
             _pass_time(case, "pre_idle", k)
@@ -597,7 +718,7 @@ def prop(case):
         out = smh.types(out_events)
         before = set(seen)
         if e >= 100:
-            if e - 100 not in seen:
+            if e - 100 not in seen and e - 100 not in evleaf:
                 dead.add(e - 100)
         elif e < 90:
             for i in members(e):
@@ -639,6 +760,12 @@ def prop(case):
                 exp_markers = {"Done"} if ok_f and not ok_g else {"Done2"} if ok_g and not ok_f else {"Done", "Done2"}
                 if len(seen - before) >= 2:
                     extra.add("completing-event-finishes>=2-members")
+                sat = [set(grp) for grp in groups if all(x in seen for x in grp)]
+                if any(set(grp) > a for a in sat for grp in groups if not set(grp) <= seen):
+                    # `A or (A and B)` completed by A alone: a satisfied alternative is a proper subset of an unsatisfied one
+                    extra.add("completed-by-alternative-that-is-proper-subset-of-an-incomplete-one")
+                if evleaf and any(set(grp) & evleaf and set(grp) - evleaf for grp in groups if all(x in seen for x in grp)):
+                    extra.add("completed-by-and-group-mixing-flows-and-events")
                 if sum(1 for grp in groups if all(x in seen for x in grp)) >= 2:
                     extra.add("completing-event-satisfies>=2-alternatives")
                     if len(seen - before) >= 2:
@@ -658,7 +785,7 @@ def prop(case):
             if len(markers) != 1 or markers[0] not in exp_markers:
                 raise Violation(f"{form}-wrong-marker", f"{desc}: {markers} at step {idx}, expected one of {sorted(exp_markers)}")
             done_at = idx
-            if form in ("await", "when", "matchref") and any(smh.Clock.virtual - first_at[x] > CLEANUP_AGE for x in under_test & set(first_at) if not _is_action_leaf(case, x)):
+            if form in ("await", "when", "matchref") and any(smh.Clock.virtual - first_at[x] > CLEANUP_AGE for x in (under_test - evleaf) & set(first_at) if not _is_action_leaf(case, x)):
                 aged = True
             if case.get("loop"):
                 # the statement is active again: only events from now on count
@@ -679,6 +806,7 @@ def prop(case):
         labels.append(f"first-statement-{gate['form']}" + ("-completed" if phase == 1 or activation else "-never-completed"))
     if evmap:
         labels.append("shared-events")
+    labels += _shape_labels(case)
     labels += sorted(extra)
     if smh.CHOOSER.used:
         ch = case.get("choices") or [0]
